@@ -364,7 +364,7 @@ Definition seg_read (c : Cfg) (m : mode) (fx : bool) (tid : nat) (sh : shared) (
     let '(sb', so') := if fx then (r_tail_bid r, r_tail_off r) else (sb, so) in
     let off := if sb' =? b_id a then so' else 0 in
     let ts1 :=
-      if ck && (off =? 0) then
+      if ck && (off =? 0) && (0 <? b_used a) then
         let '(r', p) := should_persist m r true in
         let ts' := with_reader ts r' in
         if p then persist ts' true (b_id a) 0 else ts'
